@@ -228,11 +228,23 @@ end
 -- anything of the module runs (also its loading) and is released on every
 -- way out, including errors raised by the inner function itself.
 local function _lua_invoke(mod_name, fn_name, frame, page_title, timeout)
-    _lua_set_timeout(timeout)
-    local ok, st, v = _raw_pcall(
-        _lua_invoke_inner, mod_name, fn_name, frame, page_title
-    )
-    _lua_clear_timeout_hook()
+    local depth = _lua_set_timeout(timeout)
+    local ok, st, v
+    -- Once the limit is exceeded the hook raises its error again every 1000
+    -- instructions until it is removed, wherever the code is: the release of
+    -- the limit runs protected too.  When it was interrupted it is repeated;
+    -- the hook's counter has just started again then, so the few instructions
+    -- up to the removal of the hook are not interrupted a second time.
+    local released, err = _raw_pcall(function()
+        ok, st, v = _raw_pcall(
+            _lua_invoke_inner, mod_name, fn_name, frame, page_title
+        )
+        _lua_clear_timeout_hook(depth)
+    end)
+    if not released then
+        _lua_clear_timeout_hook(depth)
+        ok, st = false, err
+    end
     if not ok then
         error(st, 0)
     end
